@@ -6,9 +6,10 @@ props = [json.loads(l)['id'] for l in open(os.path.join(HERE, 'properties.jsonl'
 checks, na = [], []
 frag = {os.path.basename(p)[:-5]: json.load(open(p)) for p in sorted(glob.glob(os.path.join(HERE, 'manifest.d', '*.json')))}
 na_reasons = frag.pop('_not_applicable', {})
+integrated = set(frag.pop('_integrated', list(frag)))   # only checks reviewed, run on /repo and committed
 hooks = frag.pop('_hooks', None)
 for pid in props:
-    if pid in frag:
+    if pid in frag and pid in integrated:
         checks.append(frag[pid])
     else:
         na.append(dict(property_id=pid, reason=na_reasons.get(pid, 'check not built yet (work in progress; see DESIGN.md section 7)')))
